@@ -25,7 +25,7 @@ FailsScalar(r) ==
 
 FailsPerm(r) ==
     Unless(IsPermOf(r.n, r.out), "C13.perm.domain")
-    \cup Unless(~IsPermOf(r.n, r.v) \/ r.out = r.v, "C13.perm.fixpoint")
+    \cup Unless(~IsPermOf(r.n, PermValue(r.v)) \/ r.out = PermValue(r.v), "C13.perm.fixpoint")      \* r.v in half units
     \cup Unless(r.out2 = r.out, "C13.perm.idempotent")
     \cup Unless(DecodeRelPerm(r.n, r.out, r.dec), "C13.perm.decode")
     \cup Unless(r.rnd_ok, "C13.randomize")
